@@ -293,3 +293,51 @@ Section Safe.
       rewrite E. apply resolve_file. assumption.
   Qed.
 End Safe.
+
+(* ------------------------------------------------------------------ the regenerated table (tie T) *)
+From CgnsV Require Import Gen_C15.
+
+Definition code_plain : list stmt := inst role_plain steps_plain.
+Definition code_symlink : list stmt := inst role_symlink steps_symlink.
+
+(* both paths of rewrite_file are in a safe order; the temporary is "<replaced file>.temp" on each path;
+   the three callers add no file-level effect of their own *)
+Definition code_ok : bool :=
+  safe_order code_plain && safe_order code_symlink &&
+  pexpr_eqb tmp_base_plain PName && pexpr_eqb tmp_base_symlink PLink &&
+  callers_ok calls_compress_adf calls_compress_hdf5 calls_close calls_main.
+
+Lemma code_is_safe : code_ok = true.
+Proof. vm_compute. reflexivity. Qed.
+
+(* What does NOT hold of the current code (I/O failures, property C14's side of compaction): the status of
+   cgio_close_file(cgout) is ignored, so the order is not safe against a failing close of the temporary. *)
+Lemma code_not_fault_safe : fault_safe code_plain = false /\ fault_safe code_symlink = false.
+Proof. vm_compute. split; reflexivity. Qed.
+
+(* witness: F=0 holds [1;2;3]; the copy writes [1;2], the close would write the last byte but fails before
+   doing so (row 6 = CloseOut, 0 of its atoms executed); rewrite_file goes on, unlinks F and renames the
+   incomplete temporary over it. *)
+Definition wit_fs0 : fs := fun p => match p with 0 => Some (File [1;2;3]%Z) | _ => None end.
+Definition wit_final : fs :=
+  exec (trace_fail 0 1 2 [(0, [1;2]%Z)] [(2, [3]%Z)] code_plain 6 0) wit_fs0.
+
+Lemma ignored_close_status_loses_data :
+  nth_error code_plain 6 = Some {| s_act := CloseOut; s_onfail := None |} /\
+  wit_final 0 = Some (File [1;2]%Z) /\ wit_final 1 = None.
+Proof. vm_compute. repeat split; reflexivity. Qed.
+
+(* with the close status honoured (row 6 given an error exit) the same table is fault-safe *)
+Definition code_plain_repaired : list stmt :=
+  map (fun s => match s_act s with
+                | CloseOut => {| s_act := CloseOut; s_onfail := Some [Unlink RTmp] |}
+                | _ => s
+                end) code_plain.
+Lemma repaired_is_fault_safe : fault_safe code_plain_repaired = true /\ safe_order code_plain_repaired = true.
+Proof. vm_compute. split; reflexivity. Qed.
+
+Lemma window_orig_absent :
+  states_after code_plain (FO, TJ) =
+    [Some (FO, TJ); Some (FO, TJ); Some (FO, TA); Some (FO, TA); Some (FO, TE); Some (FO, TC); Some (FO, TF);
+     Some (FO, TF); Some (FG, TF); Some (FN, TA)].
+Proof. vm_compute. reflexivity. Qed.
